@@ -88,48 +88,57 @@ def node_counts(net):
 
 
 def random_epr_plan(rng, thorough):
-    """several application generations on the same 2-3 nodes; per generation: pair requests (create-and-keep), then every
-    node entangles / measures / frees some of the halves it holds (a node holding halves of two pairs made elsewhere is the
-    repeater case: both qubits simulated at two other nodes), then the applications stop in a random order"""
+    """several application generations on the same 2-3 nodes; per generation every node runs a list of steps: local allocations,
+    gates, measurements and frees (not necessarily of the newest qubit, so that ids and numbers have holes), pair requests
+    (create-and-keep) in one global order, gates between local qubits and halves and between halves of pairs made elsewhere (the
+    repeater case: both qubits simulated at two other nodes); then the applications stop in a random order.
+    Qubit names: ("L", k) the k-th local allocation of the node, ("H", request index, i) the i-th half of a request"""
     n_nodes = rng.choice([2, 3, 3])
     gens = []
     for g in range(rng.randrange(2, 4 if thorough else 3) + 1):
         reqs = []
-        held = [0] * n_nodes
-        for _ in range(rng.randrange(1, 4)):
+        live = [[] for _ in range(n_nodes)]
+        steps = [[] for _ in range(n_nodes)]
+        nloc = [0] * n_nodes
+
+        def local_steps(node, k):
+            for _ in range(k):
+                kind = rng.choice(["alloc", "alloc", "free", "free", "cnot", "cnot", "cphase", "h", "meas"])
+                lv = live[node]
+                if kind == "alloc" and len(lv) < 5:
+                    nm = ("L", nloc[node])
+                    nloc[node] += 1
+                    lv.append(nm)
+                    steps[node].append(("alloc", nm))
+                elif kind in ("free", "meas") and lv:
+                    nm = lv[0] if rng.random() < 0.5 else rng.choice(lv)          # often the OLDEST
+                    lv.remove(nm)
+                    steps[node].append((kind, nm))
+                elif kind in ("cnot", "cphase") and len(lv) >= 2:
+                    a, b = rng.sample(lv, 2)
+                    steps[node].append((kind, a, b))
+                elif kind == "h" and lv:
+                    steps[node].append(("h", rng.choice(lv)))
+        for node in range(n_nodes):
+            local_steps(node, rng.randrange(0, 5))
+        for k in range(rng.randrange(1, 4)):
             c = rng.randrange(n_nodes)
             r = rng.choice([x for x in range(n_nodes) if x != c])
             n = rng.randrange(1, 3)
-            if max(held[c], held[r]) + n > 4:
+            if max(len(live[c]), len(live[r])) + n > 6:
                 continue
-            held[c] += n
-            held[r] += n
-            reqs.append({"c": c, "r": r, "n": n, "s": len([q for q in reqs if {q["c"], q["r"]} == {c, r}])})
-        if not reqs:
-            reqs.append({"c": 0, "r": 1, "n": 1, "s": 0})
-            held[0] += 1
-            held[1] += 1
-        acts = []
+            q = {"c": c, "r": r, "n": n, "s": len([x for x in reqs if {x["c"], x["r"]} == {c, r}])}
+            reqs.append(q)
+            ri = len(reqs) - 1
+            for node in (c, r):
+                steps[node].append(("req", ri))
+                live[node] += [("H", ri, i) for i in range(n)]
+                local_steps(node, rng.randrange(0, 3))
         for node in range(n_nodes):
-            a = []
-            live = list(range(held[node]))
-            for _ in range(rng.randrange(0, 4)):
-                if not live:
-                    break
-                kind = rng.choice(["cnot", "cnot", "cphase", "h", "meas", "free"])
-                if kind in ("cnot", "cphase") and len(live) >= 2:
-                    x, y = rng.sample(live, 2)
-                    a.append((kind, x, y))
-                elif kind == "h":
-                    a.append(("h", rng.choice(live)))
-                elif kind in ("meas", "free"):
-                    x = rng.choice(live)
-                    live.remove(x)
-                    a.append((kind, x))
-            acts.append(a)
+            local_steps(node, rng.randrange(0, 4))
         order = list(range(n_nodes))
         rng.shuffle(order)
-        gens.append({"reqs": reqs, "acts": acts, "stop_order": order})
+        gens.append({"reqs": reqs, "steps": steps, "stop_order": order})
     return {"n_nodes": n_nodes, "gens": gens, "pb": rng.random() < 0.25, "sched": rng.randrange(10 ** 6)}
 
 
@@ -146,40 +155,49 @@ def run_epr_plan(env, plan):
     base = node_counts(net)
     for g, gen in enumerate(plan["gens"]):
         socks = {i: [] for i in range(plan["n_nodes"])}
+
+        def sk(q, me):
+            other = q["r"] if me == q["c"] else q["c"]
+            return ("N%d" % other, q["s"] + 2 * other, q["s"] + 2 * me)
         for q in gen["reqs"]:
-            a, b = ("N%d" % q["r"], q["s"] + 2 * q["r"], q["s"] + 2 * q["c"]), ("N%d" % q["c"], q["s"] + 2 * q["c"], q["s"] + 2 * q["r"])
-            if a not in socks[q["c"]]:
-                socks[q["c"]].append(a)
-            if b not in socks[q["r"]]:
-                socks[q["r"]].append(b)
+            for me in (q["c"], q["r"]):
+                if sk(q, me) not in socks[me]:
+                    socks[me].append(sk(q, me))
         streams, stops = {}, {}
         for node in range(plan["n_nodes"]):
-            my = [q for q in gen["reqs"] if node in (q["c"], q["r"])]
-
-            def body(conn, eprs, node=node, my=my):
-                qs = []
-                for q in my:
-                    if q["c"] == node:
-                        qs += eprs[socks[node].index(("N%d" % q["r"], q["s"] + 2 * q["r"], q["s"] + 2 * q["c"]))].create_keep(q["n"])
-                    else:
-                        qs += eprs[socks[node].index(("N%d" % q["c"], q["s"] + 2 * q["c"], q["s"] + 2 * q["r"]))].recv_keep(q["n"])
+            def body(conn, eprs, node=node):
+                from netqasm.sdk.qubit import Qubit
+                qs = {}
+                dirty = False
+                for st in gen["steps"][node]:
+                    if st[0] == "req":
+                        q = gen["reqs"][st[1]]
+                        e = eprs[socks[node].index(sk(q, node))]
+                        got = e.create_keep(q["n"]) if q["c"] == node else e.recv_keep(q["n"])
+                        for i, x in enumerate(got):
+                            qs[("H", st[1], i)] = x
+                        conn.flush()
+                        dirty = False
+                        continue
+                    if st[0] == "alloc":
+                        qs[st[1]] = Qubit(conn)
+                    elif st[0] == "free":
+                        qs[st[1]].free()
+                    elif st[0] == "meas":
+                        qs[st[1]].measure()
+                    elif st[0] == "h":
+                        qs[st[1]].H()
+                    elif st[0] == "cnot":
+                        qs[st[1]].cnot(qs[st[2]])
+                    elif st[0] == "cphase":
+                        qs[st[1]].cphase(qs[st[2]])
+                    dirty = True
+                if dirty:
                     conn.flush()
-                for a in gen["acts"][node]:
-                    if a[0] == "cnot":
-                        qs[a[1]].cnot(qs[a[2]])
-                    elif a[0] == "cphase":
-                        qs[a[1]].cphase(qs[a[2]])
-                    elif a[0] == "h":
-                        qs[a[1]].H()
-                    elif a[0] == "meas":
-                        qs[a[1]].measure()
-                    elif a[0] == "free":
-                        qs[a[1]].free()
-                conn.flush()
             msgs = EP.sdk_messages(names, names[node], g, socks[node], body, max_qubits=8)
             streams[node] = [m for m in msgs if type(m).__name__ != "StopAppMessage"]
             stops[node] = [m for m in msgs if type(m).__name__ == "StopAppMessage"]
-        Q.script_coins(env, [(i * 5 + g + plan["sched"]) % 2 for i in range(96)], len(env.tap))
+        Q.script_coins(env, [(i * 5 + g + plan["sched"]) % 2 for i in range(128)], len(env.tap))
         out = EP.run_concurrently(env, net, streams, random.Random(plan["sched"] + g))
         for node, lst in out.items():
             for (m, rep, esc) in lst:
@@ -194,7 +212,7 @@ def run_epr_plan(env, plan):
             after = node_counts(net)
             obs.append((g, node, before, after))
             if not rep or rep[-1][0] != "done" or ("err", 0) in rep:
-                P.append({"kind": "stop-failed", "what": "generation %d: StopApp at node %d answered %r" % (g, node, rep)})
+                P.append({"kind": "stop-failed", "what": "generation %d: StopApp at node %d answered %r; node counts (held, sims, regs, numRegs) %r" % (g, node, rep, after)})
                 break
             if after[node][0] != 0:
                 P.append({"kind": "stop-keeps-qubits", "what": "generation %d: after its stop node %d still holds %d qubits" % (g, node, after[node][0])})
@@ -216,7 +234,14 @@ def run_epr_plan(env, plan):
 
 REPEATER = {"n_nodes": 3, "pb": False, "sched": 7, "gens": [
     {"reqs": [{"c": 0, "r": 1, "n": 1, "s": 0}, {"c": 2, "r": 1, "n": 1, "s": 0}],
-     "acts": [[], [("cnot", 0, 1), ("h", 0), ("meas", 0), ("meas", 1)], []], "stop_order": [0, 1, 2]}] * 3}
+     "steps": [[("req", 0)], [("req", 0), ("req", 1), ("cnot", ("H", 0, 0), ("H", 1, 0)), ("h", ("H", 0, 0)), ("meas", ("H", 0, 0)), ("meas", ("H", 1, 0))], [("req", 1)]],
+     "stop_order": [0, 1, 2]}] * 3}
+# ids and numbers with holes: the OLDER of two local qubits is freed, then halves arrive / are created, gates between local qubits and halves
+HOLES = {"n_nodes": 2, "pb": False, "sched": 11, "gens": [
+    {"reqs": [{"c": 0, "r": 1, "n": 2, "s": 0}],
+     "steps": [[("alloc", ("L", 0)), ("alloc", ("L", 1)), ("h", ("L", 1)), ("free", ("L", 0)), ("req", 0), ("cnot", ("L", 1), ("H", 0, 0)), ("free", ("H", 0, 0))],
+               [("alloc", ("L", 0)), ("alloc", ("L", 1)), ("free", ("L", 0)), ("req", 0), ("cnot", ("L", 1), ("H", 0, 1)), ("free", ("H", 0, 1)), ("free", ("L", 1))]],
+     "stop_order": [1, 0]}] * 2}
 
 
 def judge_c11(s):
@@ -288,14 +313,16 @@ def run(ctx):
         reuse.scenario = name
         leak = failed_pair_leak(env)
         epr_found = []
-        plans = [REPEATER, dict(REPEATER, pb=True)] + [random_epr_plan(rng, t) for _ in range(400 if t else 24)]
+        plans = [REPEATER, dict(REPEATER, pb=True), HOLES, dict(HOLES, pb=True)] + [random_epr_plan(rng, t) for _ in range(400 if t else 24)]
         for plan in plans:
             probs, obs = run_epr_plan(env, plan)
             ctx.count("epr_plans")
             ctx.count("epr_plans_over_real_PB", 1 if plan["pb"] else 0)
             ctx.count("epr_generations", len(plan["gens"]))
             ctx.count("epr_stops_observed", len(obs))
-            ctx.count("epr_repeater_gates", sum(1 for g_ in plan["gens"] for a in g_["acts"] for x in a if x[0] in ("cnot", "cphase")))
+            ctx.count("epr_plan_two_qubit_gates", sum(1 for g_ in plan["gens"] for a in g_["steps"] for x in a if x[0] in ("cnot", "cphase")))
+            ctx.count("epr_plan_frees_and_measurements", sum(1 for g_ in plan["gens"] for a in g_["steps"] for x in a if x[0] in ("free", "meas")))
+            ctx.count("epr_plan_local_allocations", sum(1 for g_ in plan["gens"] for a in g_["steps"] for x in a if x[0] == "alloc"))
             ctx.case(("epr-plan", str(plan)), nontrivial=True)
             if probs:
                 epr_found.append((plan, probs))
